@@ -510,7 +510,8 @@ META = {
     "level": "model_checking",
     "technique": "TLA+ spec FileTable.tla model-checked by TLC; TLC-generated behaviours replayed on the real "
                  "table.file over a real file with the reloader parked before each file-system call; recorded "
-                 "traces validated against FileTableTrace.tla (predicates in FileTableObs.tla)",
+                 "traces validated against FileTableTrace.tla (predicates in FileTableObs.tla); pattern B rows of "
+                 "TableLookup.tla run through the real table modules and evaluated by TableLookupTrace.tla",
     "statement": "For any history of edits to the file behind a table.file table - atomic replacement, in-place "
                  "rewriting line by line, removal and re-creation, replacement by a version with an older "
                  "modification time, by a directory or by an unresolvable path, loss of read permission - arriving "
@@ -526,7 +527,10 @@ META = {
             "events and Close inside the bound (K=2: horizon 4-6 slots, 2-3 edits; K=4 in thorough) and checks the "
             "X01 predicates in every state; the as-is deviations must violate them. The same predicates are "
             "evaluated by TLC over traces recorded from the real module driven with TLC-simulated behaviours "
-            "(700 in quick, 24000 in thorough).",
+            "(638 sampled in quick; every sweep and witness behaviour plus 24000 simulated, about 36000 distinct, in thorough). "
+            "The pure tables (static, identity, email_localpart, email_with_domain, regexp, chain) and table.file's syntax are "
+            "rows of TableLookup.tla: TLC checks the documented rule against the predicates on every row and evaluates the "
+            "predicates on what the real modules answered for every row (4230 in quick, 24694 in thorough).",
     "note": "Time is a synctest bubble's clock, reads are cut at line boundaries and EACCES is injected by the "
             "overlay shim harness/tablecheck/tos; trusted: TLC, the harness, Go toolchain.",
     "design_ref": "extensions/X01.md",
